@@ -87,7 +87,29 @@ def gene_list(H):
     return [H.pick(GENES) if H.draw(3) else H.draw(sys.maxsize) for _ in range(n)]
 
 
-def make_source(ctx, H, kinds=("sim", "native", "ge", "sge", "stack")):
+_DSGE = {}
+
+
+def dsge_source(ctx, H):
+    """dynamic SGE's metahandler source: reads int / float genes through the decider (genes as created: 0..1024; as mutated: up to maxsize)"""
+    from geneticengine.representations.grammatical_evolution import dynamic_structured_ge as D
+
+    if not hasattr(D, "GenotypeBackedSource"):
+        return None
+    if "g" not in _DSGE:
+        install_set_order()
+        spec = {"classes": [{"name": "A0", "kind": "abc", "parent": None, "weight": None, "fields": []},
+                            {"name": "C0", "kind": "data", "parent": "A0", "weight": None, "fields": [["f0", ["int"]]]}],
+                "start": "A0", "considered": ["C0"]}
+        _DSGE["b"] = Built(spec)
+        _DSGE["g"] = _DSGE["b"].extract()
+    genes_i = gene_list(H)
+    genes_f = gene_list(H)
+    geno = D.Genotype(SimRandom(ctx, "uniform", log=False), {int: genes_i, float: genes_f})
+    return D.GenotypeBackedSource(D.DynamicSGEDecider(geno, _DSGE["g"], 5))
+
+
+def make_source(ctx, H, kinds=("sim", "native", "ge", "sge", "stack", "dsge")):
     from geneticengine.representations.grammatical_evolution.ge import ListWrapper as GEW
     from geneticengine.representations.grammatical_evolution.structured_ge import StructuredListWrapper as SGW, INFRASTRUCTURE_KEY
     from geneticengine.representations.stackgggp import ListWrapper as STW
@@ -98,6 +120,11 @@ def make_source(ctx, H, kinds=("sim", "native", "ge", "sge", "stack")):
         return f"sim:{pol}", SimRandom(ctx, pol, edge_den=2)
     if k == "native":
         return "native", NativeRandomSource(H.draw(1000))
+    if k == "dsge":
+        src = dsge_source(ctx, H)
+        if src is not None:
+            return "dsge", src
+        k = "ge"
     dna = gene_list(H)
     if k == "ge":
         return "ge", GEW(dna)
